@@ -1157,3 +1157,5 @@ def run(idx, rep, tier):
     from .shared import share
     from .c03 import r8 as _c03r8
     share(k, 'C06.R10', 'every key exchange message is read to its end (= C03.R8): trailing bytes after KEX_ECDH_INIT are outside the exchange hash and must end the exchange', _c03r8)
+    from .c05 import r12 as _c05r12
+    share(k, 'C06.R11', 'method-specific messages of a superseded request take no effect (= C05.R12): a new USERAUTH_REQUEST removes the auth handler of the request before it synchronously, not when its own task gets to it', _c05r12)
